@@ -273,12 +273,23 @@ Qed.
 (* ------------------------------------------------------------------ *)
 (* the declarative account of what a method returns                     *)
 
+(* Do did not return a response together with an error *)
+Definition no_both (o : outcome X) : bool :=
+  match o with OBoth _ _ => false | _ => true end.
+
 Definition err_slot (e : option err) : slot :=
   match e with Some e => SErr e | None => SNil end.
 
 Definition spec_returns (rs : list field) (o : outcome X) : list slot :=
   match o with
   | OFail _ x => (repeat SNil (List.length rs - 1) ++ [SErr (EForeign x)])%list
+  | OBoth r x =>
+      (* what the property text demands when Do hands back a response together with its error
+         (redirect failure): the response next to the error, no result *)
+      match declared_result rs with
+      | None => [SResp r; SErr (EForeign x)]
+      | Some _ => [SNil; SResp r; SErr (EForeign x)]
+      end
   | OResp r =>
       let e := status_error (r_status r) (r_body r) in
       match declared_result rs with
@@ -298,6 +309,7 @@ Definition spec_returns (rs : list field) (o : outcome X) : list slot :=
 Definition spec_events (rs : list field) (o : outcome X) : list bevent :=
   match o with
   | OFail _ _ => []
+  | OBoth _ _ => []          (* net/http has closed that body already *)
   | OResp r =>
       match class_of (r_status r) with
       | ClientError | ServerError => [BReadAll; BClose]
@@ -330,7 +342,8 @@ Lemma returns_view : forall o, exists rv,
   view (spec_returns rs o) = Some rv /\
   (rv_result rv = None <-> declared_result rs = None).
 Proof.
-  intros o. unfold spec_returns. destruct o as [st x|r].
+  intros o. unfold spec_returns. destruct o as [st x|r|r x].
+  3:{ destruct (declared_result rs) as [[ty p]|]; eexists; (split; [reflexivity|]); simpl; split; try discriminate; tauto. }
   - destruct accepted_length as [H|H]; rewrite H; simpl.
     + eexists; split; [reflexivity|]. simpl. apply declared_result_none_iff in H. tauto.
     + eexists; split; [reflexivity|]. simpl. split; [discriminate|].
@@ -368,6 +381,15 @@ Proof.
   - simpl; intros H; inversion H; reflexivity.
 Qed.
 
+(* the ideal also for a response that comes together with an error *)
+Lemma response_returned_with_error : forall r x rv,
+  view (spec_returns rs (OBoth r x)) = Some rv ->
+  rv_resp rv = SResp r /\ rv_err rv = SErr (EForeign x) /\ (rv_result rv = None \/ rv_result rv = Some SNil).
+Proof.
+  intros r x rv. unfold spec_returns.
+  destruct (declared_result rs) as [[ty p]|]; simpl; intros H; inversion H; subst; simpl; auto.
+Qed.
+
 (* nil error exactly for 2xx whose body decodes (io.EOF counts as decoding) *)
 Lemma nil_error_iff : forall o rv,
   view (spec_returns rs o) = Some rv ->
@@ -378,7 +400,9 @@ Lemma nil_error_iff : forall o rv,
      | Some (ty, _) => forall x, snd (decode ty (r_body r)) <> Some (DOther x)
      end).
 Proof.
-  intros o rv. destruct o as [st x|r].
+  intros o rv. destruct o as [st x|r|r x].
+  3:{ unfold spec_returns. destruct (declared_result rs) as [[ty p]|]; simpl; intros H; inversion H; subst; simpl;
+      (split; [discriminate | intros (r' & Hr & _); discriminate]). }
   - intros Hv. apply fail_view in Hv as (He & _). rewrite He. split; [discriminate|].
     intros (r & Hr & _); discriminate.
   - unfold spec_returns.
@@ -416,7 +440,8 @@ Lemma error_means_nil_result : forall o rv,
   view (spec_returns rs o) = Some rv -> rv_err rv <> SNil ->
   rv_result rv = None \/ rv_result rv = Some SNil.
 Proof.
-  intros o rv Hv Hne. destruct o as [st x|r].
+  intros o rv Hv Hne. destruct o as [st x|r|r x].
+  3:{ unfold spec_returns in Hv. destruct (declared_result rs) as [[ty p]|]; inversion Hv; subst; simpl; auto. }
   - apply fail_view in Hv; tauto.
   - unfold spec_returns in Hv.
     destruct (declared_result rs) as [[ty p]|].
@@ -459,7 +484,10 @@ Qed.
 Lemma returns_length : forall o, List.length (spec_returns rs o) = List.length rs.
 Proof.
   intros o. destruct (returns_view o) as (rv & Hv & Hiff).
-  destruct o as [st x|r].
+  destruct o as [st x|r|r x].
+  3:{ unfold spec_returns. destruct (declared_result rs) as [[ty p]|] eqn:Hd; simpl.
+      - destruct accepted_length as [H|H]; auto. apply declared_result_none_iff in H. congruence.
+      - apply declared_result_none_iff in Hd. lia. }
   - rewrite fail_returns, app_length, repeat_length; simpl. destruct accepted_length; lia.
   - unfold spec_returns in *. destruct (declared_result rs) as [[ty p]|] eqn:Hd.
     + assert (List.length rs = 3%nat).
@@ -473,11 +501,33 @@ End Accepted.
 
 (* the literal pipeline (cook_values, the rendered statements, their
    execution) refines the declarative account *)
+(* what the code does when Do returns a response together with an error: exactly what it
+   does when Do returns only the error -- the response is dropped *)
+Lemma eval_all_errret : forall (s1 s2 : mstate V X) n,
+  m_err V X s1 = m_err V X s2 ->
+  eval_all V X s1 (repeat XNil n ++ [XErr]) = eval_all V X s2 (repeat XNil n ++ [XErr]).
+Proof.
+  intros s1 s2 n He. induction n as [|n IH]; simpl.
+  - rewrite He. reflexivity.
+  - rewrite IH. reflexivity.
+Qed.
+
+Lemma method_values_both_is_fail : forall bv rs r x,
+  method_values decode bv rs (OBoth r x) = method_values decode bv rs (OFail StDo x).
+Proof.
+  intros bv rs r x. unfold method_values. destruct (cook_values rs) as [f|c]; [reflexivity|].
+  f_equal. unfold emit, errret. destruct (ck_result c) as [ty p].
+  destruct bv; cbn; unfold do_return;
+    rewrite (eval_all_errret (set_err V X (set_resp V X m0 r) (Some (EForeign x)))
+                             (set_err V X m0 (Some (EForeign x))) (ck_nils c) eq_refl);
+    reflexivity.
+Qed.
+
 Lemma method_values_refines_spec : forall bv rs o,
-  wf_results rs = true -> accepted rs -> scenario_ok bv o = true ->
+  wf_results rs = true -> accepted rs -> scenario_ok bv o = true -> no_both o = true ->
   method_values decode bv rs o = inr (Some (spec_returns rs o, spec_events rs o)).
 Proof.
-  intros bv rs o Hwf Hacc Hsc. unfold method_values.
+  intros bv rs o Hwf Hacc Hsc Hnb. unfold method_values.
   destruct (cook_values_fatal_or_cooked rs) as [(f & _ & Hn)|(c & Hc & _)]; [contradiction|].
   rewrite Hc. apply cook_values_accepts in Hc as (_ & Hnils & Hres). do 2 f_equal.
   destruct c as [[cty cptr] cn]; simpl in Hnils, Hres; subst cn.
@@ -491,7 +541,7 @@ Proof.
     { destruct (accepted_length rs Hwf Hacc) as [H|H]; auto.
       apply (declared_result_none_iff rs Hwf Hacc) in H. congruence. }
     rewrite Hlen. unfold spec_returns, spec_events. rewrite Hd, Hlen.
-    destruct o as [st x|r].
+    destruct o as [st x|r|r x]; [| |discriminate Hnb].
     + destruct st, bv; try discriminate Hsc; reflexivity.
     + pose proof (classify_spec (r_status r) (r_body r)) as Hcl.
       pose proof (classify_events (r_status r) (r_body r)) as Hev.
@@ -503,7 +553,7 @@ Proof.
     inversion Hres; subst cty cptr; clear Hres.
     assert (Hlen : List.length rs = 2%nat) by (apply (declared_result_none_iff rs Hwf Hacc); assumption).
     rewrite Hlen. unfold spec_returns, spec_events. rewrite Hd, Hlen.
-    destruct o as [st x|r].
+    destruct o as [st x|r|r x]; [| |discriminate Hnb].
     + destruct st, bv; try discriminate Hsc; reflexivity.
     + pose proof (classify_spec (r_status r) (r_body r)) as Hcl.
       pose proof (classify_events (r_status r) (r_body r)) as Hev.
@@ -764,20 +814,37 @@ Section Literal.
 Variable V X : Type.
 Variable decode : string -> body X -> dec_out V X.
 
+(* what the code makes of a scenario: a response that comes together with an error is
+   handled like the error alone *)
+Definition as_code (o : outcome X) : outcome X :=
+  match o with OBoth _ x => OFail StDo x | _ => o end.
+
+Lemma method_values_as_code : forall bv rs o,
+  method_values decode bv rs o = method_values decode bv rs (as_code o).
+Proof. intros bv rs [st x|r|r x]; try reflexivity. apply method_values_both_is_fail. Qed.
+
+Lemma as_code_resp : forall o r, as_code o = OResp r <-> o = OResp r.
+Proof. intros [st x|r0|r0 x] r; simpl; split; intros H; try discriminate; assumption. Qed.
+
 Lemma method_values_inv : forall bv rs o slots ev,
   wf_results rs = true ->
   method_values decode bv rs o = inr (Some (slots, ev)) ->
   accepted rs /\ scenario_ok bv o = true /\
-  slots = spec_returns V X decode rs o /\ ev = spec_events X rs o.
+  slots = spec_returns V X decode rs (as_code o) /\ ev = spec_events X rs (as_code o).
 Proof.
   intros bv rs o slots ev Hwf H.
   assert (Hacc : accepted rs).
   { unfold method_values in H. destruct (cook_values rs) as [f|c] eqn:Hc; [discriminate|].
     apply cook_values_accepts in Hc; tauto. }
+  rewrite method_values_as_code in H.
+  assert (Hsame : scenario_ok bv (as_code o) = scenario_ok bv o) by (destruct o as [[] ?|?|? ?]; reflexivity).
+  rewrite <- Hsame.
+  assert (Hnb : no_both X (as_code o) = true) by (destruct o; reflexivity).
+  revert H Hnb. generalize (as_code o). clear Hsame o. intros o H Hnb.
   destruct (scenario_ok bv o) eqn:Hsc.
-  - rewrite (method_values_refines_spec V X decode bv rs o Hwf Hacc Hsc) in H. inversion H; auto.
+  - rewrite (method_values_refines_spec V X decode bv rs o Hwf Hacc Hsc Hnb) in H. inversion H; auto.
   - (* the failing call is not part of the method: nothing is returned *)
-    exfalso. destruct o as [[] x|r]; try discriminate Hsc. destruct bv; [discriminate Hsc|].
+    exfalso. destruct o as [[] x|r|r x]; try discriminate Hsc. destruct bv; [discriminate Hsc|].
     unfold method_values in H. destruct (cook_values rs) as [f|c]; [discriminate|].
     inversion H as [H1]. unfold emit in H1. destruct (ck_result c) as [ty p].
     cbn in H1. destruct (String.eqb ty ""); discriminate H1.
@@ -790,7 +857,9 @@ Lemma mr_exists_iff : forall bv rs o,
 Proof.
   intros bv rs o Hwf Hsc. split.
   - intros ([slots ev] & H). apply method_values_inv in H; tauto.
-  - intros Hacc. eexists. apply method_values_refines_spec; assumption.
+  - intros Hacc. eexists. rewrite method_values_as_code. apply method_values_refines_spec; try assumption.
+    + destruct o as [[] ?|?|? ?]; try assumption; reflexivity.
+    + destruct o; reflexivity.
 Qed.
 
 (* a json.Marshal failure cannot happen in a method that sends no body *)
@@ -821,7 +890,8 @@ Lemma mr_nil_error_iff : forall bv rs o slots ev rv,
      end).
 Proof.
   intros bv rs o slots ev rv Hwf H Hv. apply method_values_inv in H as (Hacc & _ & -> & _); auto.
-  apply nil_error_iff; assumption.
+  rewrite (nil_error_iff V X decode rs Hwf Hacc (as_code o) rv Hv).
+  split; intros (r & Hr & Hrest); exists r; (split; [apply as_code_resp; assumption | assumption]).
 Qed.
 
 Lemma mr_client_error : forall bv rs r slots ev rv,
@@ -1107,12 +1177,32 @@ Lemma sg_cook_results : forall rs c,
 Proof. intros rs c. unfold cook_results. rewrite declared_arity_values. apply cook_values_accepts. Qed.
 
 Lemma sg_refines_spec : forall bv rs o,
-  wf_results rs = true -> sig_accepted rs -> scenario_ok bv o = true ->
+  wf_results rs = true -> sig_accepted rs -> scenario_ok bv o = true -> no_both X o = true ->
   method_returns decode bv rs o
   = inr (Some (spec_returns V X decode (values rs) o, spec_events X (values rs) o)).
 Proof.
-  intros bv rs o Hwf Ha Hsc. rewrite method_returns_values. rewrite <- wf_values in Hwf.
-  exact (method_values_refines_spec V X decode bv (values rs) o Hwf Ha Hsc).
+  intros bv rs o Hwf Ha Hsc Hnb. rewrite method_returns_values. rewrite <- wf_values in Hwf.
+  exact (method_values_refines_spec V X decode bv (values rs) o Hwf Ha Hsc Hnb).
+Qed.
+
+(* K_rest_redirect_response_dropped: when Do returns a response together with an error
+   (following redirects failed), every generated method behaves as if only the error had
+   been returned: the response is NOT returned next to the error *)
+Lemma sg_both_is_fail : forall bv rs r x,
+  method_returns decode bv rs (OBoth r x) = method_returns decode bv rs (OFail StDo x).
+Proof. intros. rewrite !method_returns_values. apply method_values_both_is_fail. Qed.
+
+Lemma sg_redirect_response_dropped : forall bv rs r x,
+  wf_results rs = true -> sig_accepted rs ->
+  exists slots, method_returns decode bv rs (OBoth r x) = inr (Some (slots, [])) /\
+    forall rv, view slots = Some rv -> rv_resp rv = SNil /\ rv_err rv = SErr (EForeign x).
+Proof.
+  intros bv rs r x Hwf Ha. rewrite sg_both_is_fail.
+  assert (Hsc : scenario_ok bv (OFail StDo x) = true) by reflexivity.
+  rewrite (sg_refines_spec bv rs (OFail StDo x) Hwf Ha Hsc eq_refl).
+  eexists; split; [reflexivity|]. intros rv Hv.
+  rewrite <- wf_values in Hwf.
+  destruct (fail_view V X decode (values rs) Hwf Ha StDo x rv Hv) as (He & Hr & _). auto.
 Qed.
 
 Lemma sg_view : forall bv rs o slots ev,
@@ -1149,6 +1239,23 @@ Lemma sg_server_error : forall bv rs r slots ev rv,
 Proof.
   intros bv rs r slots ev rv Hwf H Hv Hs. to_values H. eapply mr_server_error; eauto.
 Qed.
+
+(* the property's class "5xx" ... *)
+Lemma sg_5xx_server_error : forall bv rs r slots ev rv,
+  wf_results rs = true -> method_returns decode bv rs (OResp r) = inr (Some (slots, ev)) -> view slots = Some rv ->
+  500 <= r_status r < 600 ->
+  rv_err rv = SErr (EText ("server error " ++ dec (r_status r) ++ ": " ++ b_data (r_body r))) /\
+  rv_resp rv = SResp r /\ (rv_result rv = None \/ rv_result rv = Some SNil).
+Proof. intros bv rs r slots ev rv Hwf H Hv Hs. eapply sg_server_error; eauto. lia. Qed.
+
+(* ... and what the code does beyond it: a status of 600 and above is reported as a server
+   error too, although the property text counts it among "any other status" *)
+Lemma sg_600_and_above_server_error : forall bv rs r slots ev rv,
+  wf_results rs = true -> method_returns decode bv rs (OResp r) = inr (Some (slots, ev)) -> view slots = Some rv ->
+  600 <= r_status r ->
+  rv_err rv = SErr (EText ("server error " ++ dec (r_status r) ++ ": " ++ b_data (r_body r))) /\
+  rv_resp rv = SResp r /\ (rv_result rv = None \/ rv_result rv = Some SNil).
+Proof. intros bv rs r slots ev rv Hwf H Hv Hs. eapply sg_server_error; eauto. lia. Qed.
 
 Lemma sg_unsupported : forall bv rs r slots ev rv,
   wf_results rs = true -> method_returns decode bv rs (OResp r) = inr (Some (slots, ev)) -> view slots = Some rv ->
